@@ -126,6 +126,32 @@ MUTANTS: List[dict] = [
     _m("c06-reply-before-reserve", "C06", "handler.py", "    node_id = msg.gateway.add_sensor()\n    if node_id is None:\n        return None", "    node_id = msg.gateway._get_next_id()\n    if node_id is None:\n        return None", "C06-R3"),
     _m("c06-max-node-id-const", "C06", "const_14.py", "MAX_NODE_ID = 254", "MAX_NODE_ID = 255", "C06-R2"),
     _m("c06-benign-next-id-expr", "C06", "__init__.py", "        if next_id <= self.const.MAX_NODE_ID:\n            return next_id\n        return None", "        if next_id > self.const.MAX_NODE_ID:\n            return None\n        return next_id", "", silent=True),
+    # ------------------------------------------------------------------ C10
+    _m("c10-config-consults-started", "C10", "ota.py", "self._get_fw(msg, (self.requested, self.unstarted))", "self._get_fw(msg, (self.requested, self.unstarted, self.started))", "C10-R2"),
+    _m("c10-block-consults-requested", "C10", "ota.py", "msg, (self.unstarted, self.started), req_fw_type, req_fw_ver", "msg, (self.requested, self.unstarted, self.started), req_fw_type, req_fw_ver", "C10-R2"),
+    _m("c10-config-moves-to-started", "C10", "ota.py", "self._get_fw(msg, (self.requested, self.unstarted))", "self._get_fw(msg, (self.requested, self.started))", "C10-R2"),
+    _m("c10-update-no-restart", "C10", "ota.py", "            for store in self.unstarted, self.started:\n                store.pop(node_id, None)\n", "            for store in (self.unstarted,):\n                store.pop(node_id, None)\n", "restart"),
+    _m("c10-update-without-firmware", "C10", "ota.py", "        if (fw_type, fw_ver) not in self.firmware:", "        if False and (fw_type, fw_ver) not in self.firmware:", "firmware exists"),
+    _m("c10-update-unknown-node", "C10", "ota.py", "            if node_id not in self._sensors:\n                continue\n", "", "C10-R"),
+    _m("c10-reply-without-session", "C10", "ota.py", "        if fw_type is None or fw_ver is None:\n            _LOGGER.debug(\"Node %s is not set for firmware update\", msg.node_id)\n            return None, None, None\n        if req_fw_type", "        if (fw_type is None or fw_ver is None) and req_fw_type is None:\n            _LOGGER.debug(\"Node %s is not set for firmware update\", msg.node_id)\n            return None, None, None\n        if req_fw_type", "C10-R1"),
+    _m("c10-reboot-cleared-by-set", "C10", "handler.py", "    msg.gateway.alert(msg)\n\n    # Check if reboot is true\n    if sensor.reboot:\n        return msg.copy(", "    msg.gateway.alert(msg)\n\n    # Check if reboot is true\n    if sensor.reboot:\n        sensor.reboot = False\n        return msg.copy(", "C10-R3"),
+    _m("c10-reboot-not-cleared-on-presentation", "C10", "handler.py", "        # Set reboot to False after a node reboot.\n        msg.gateway.sensors[msg.node_id].reboot = False\n", "", "C10-R3"),
+    _m("c10-stream-without-known-node", "C10", "handler.py", "    if not msg.gateway.is_sensor(msg.node_id):\n        return None\n    stream = ", "    stream = ", "C10-R5"),
+    _m("c10-benign-get_fw-local", "C10", "ota.py", "        fw_type, fw_ver, fware = self._get_fw(msg, (self.requested, self.unstarted))", "        stores = (self.requested, self.unstarted)\n        fw_type, fw_ver, fware = self._get_fw(msg, stores)", "", silent=True),
+    # ------------------------------------------------------------------ C09
+    _m("c09-big-endian-pack", "C09", "ota.py", "struct.pack(f\"<{len(args)}H\", *args)", "struct.pack(f\">{len(args)}H\", *args)", "little-endian"),
+    _m("c09-block-echo-session-version", "C09", "ota.py", "        if req_fw_type is not None and req_fw_ver is not None:\n            fw_type, fw_ver = req_fw_type, req_fw_ver\n", "", "echoes"),
+    _m("c09-block-index-off-by-one", "C09", "ota.py", "msg.payload = fw_int_to_hex(fw_type, fw_ver, req_blk)", "msg.payload = fw_int_to_hex(fw_type, fw_ver, req_blk + 1)", "echoes"),
+    _m("c09-config-crc-blocks-swapped", "C09", "ota.py", "fw_int_to_hex(fw_type, fw_ver, fware[\"blocks\"], fware[\"crc\"])", "fw_int_to_hex(fw_type, fw_ver, fware[\"crc\"], fware[\"blocks\"])", "config response packs"),
+    _m("c09-slice-width-constant", "C09", "ota.py", "            req_blk * FIRMWARE_BLOCK_SIZE : req_blk * FIRMWARE_BLOCK_SIZE\n            + FIRMWARE_BLOCK_SIZE\n", "            req_blk * FIRMWARE_BLOCK_SIZE : req_blk * FIRMWARE_BLOCK_SIZE\n            + 8\n", "C09-R2"),
+    _m("c09-crc-before-padding", "C09", "ota.py", "    pads = len(bin_string) % 128  # 128 bytes per page for atmega328\n", "    crc = compute_crc(bin_string)\n    pads = len(bin_string) % 128  # 128 bytes per page for atmega328\n", "", silent=True),
+    _m("c09-crc-of-unpadded", "C09", "ota.py", "    pads = len(bin_string) % 128  # 128 bytes per page for atmega328\n    for _ in range(128 - pads):  # pad up to even 128 bytes\n        bin_string += b\"\\xff\"\n    fware = {\n        \"blocks\": int(len(bin_string) / FIRMWARE_BLOCK_SIZE),\n        \"crc\": compute_crc(bin_string),", "    raw = bin_string\n    pads = len(bin_string) % 128  # 128 bytes per page for atmega328\n    for _ in range(128 - pads):  # pad up to even 128 bytes\n        bin_string += b\"\\xff\"\n    fware = {\n        \"blocks\": int(len(bin_string) / FIRMWARE_BLOCK_SIZE),\n        \"crc\": compute_crc(raw),", "C09-R3"),
+    _m("c09-pad-count-off", "C09", "ota.py", "    for _ in range(128 - pads):  # pad up to even 128 bytes", "    for _ in range(127 - pads):  # pad up to even 128 bytes", "C09-R4"),
+    _m("c09-pad-byte-zero", "C09", "ota.py", "        bin_string += b\"\\xff\"", "        bin_string += b\"\\x00\"", "C09-R4"),
+    _m("c09-block-size-32", "C09", "ota.py", "FIRMWARE_BLOCK_SIZE = 16", "FIRMWARE_BLOCK_SIZE = 32", "C09-R2"),
+    _m("c09-blocks-div-const", "C09", "ota.py", "int(len(bin_string) / FIRMWARE_BLOCK_SIZE)", "int(len(bin_string) / 32)", "C09-R2"),
+    _m("c09-config-words-4", "C09", "ota.py", "            ) = fw_hex_to_int(msg.payload, 5)", "            ) = fw_hex_to_int(msg.payload[:16], 4) + (0,)", "C09-R1"),
+    _m("c09-benign-slice-locals", "C09", "ota.py", "        blk_data = fware[\"data\"][\n            req_blk * FIRMWARE_BLOCK_SIZE : req_blk * FIRMWARE_BLOCK_SIZE\n            + FIRMWARE_BLOCK_SIZE\n        ]", "        blk_data = fware[\"data\"][\n            req_blk * FIRMWARE_BLOCK_SIZE : (req_blk + 1) * FIRMWARE_BLOCK_SIZE\n        ]", "", silent=True),
 ]
 
 
